@@ -57,3 +57,10 @@ package job
 //@   fresh result
 //@   ensures result != nil && result.Name == rj.Name && result.Namespace == rj.Namespace && result.UID == rj.UID && result.Spec == rj.Spec
 //@        && result.Finalizers == rj.Finalizers && result.DeletionTimestamp == rj.DeletionTimestamp && result.Status.StartTime == rj.Status.StartTime
+
+//@ extern func UpdateTaskRefDeletedStatusIfNotSet
+//@   params rj, taskName, status
+//@   fresh result
+//@   ensures result != nil && result.Name == rj.Name && result.Namespace == rj.Namespace && result.UID == rj.UID && result.Spec == rj.Spec
+//@        && result.Finalizers == rj.Finalizers && result.DeletionTimestamp == rj.DeletionTimestamp && result.Status.StartTime == rj.Status.StartTime
+//@        && len(result.Status.Tasks) == len(rj.Status.Tasks) && (forall k int :: 0 <= k && k < len(rj.Status.Tasks) ==> result.Status.Tasks[k].Name == rj.Status.Tasks[k].Name)
